@@ -131,7 +131,7 @@ func (a *Analysis) textPrims(rep *Report) []*textPrim {
 					for _, p := range okPaths {
 						alt.Iter = append(alt.Iter, &Arm{Conds: p.Conds, Events: p.Events})
 					}
-					c := &layoutCtx{u: a.U, path: okPaths[0]}
+					c := &layoutCtx{u: a.U, path: &Path{Events: []*Event{alt}}} // (each arm carries its own conditions)
 					fields = c.extractEnc([]*Event{alt})
 				}
 			}
